@@ -67,6 +67,8 @@ instance (sh : Shape) (ms : Members) : Decidable (NoDupSlots sh ms) := by unfold
 /-- the names of a shape are pairwise disjoint (checked by `decide` for every concrete shape) -/
 def DisjointNames (names : List (List Bytes)) : Prop := names.Pairwise (fun a b => ∀ k ∈ a, k ∉ b)
 
+instance (names : List (List Bytes)) : Decidable (DisjointNames names) := by unfold DisjointNames; infer_instance
+
 /-- the whole `visit_map` of a struct: slots and the unknown members -/
 def walkStruct (sh : Shape) (ms : Members) : Option (Slots × Members) := walk sh ms Slots.empty []
 
